@@ -45,3 +45,126 @@ def run_script(exe, ops, cwd, timeout=120, env=None):
             continue
         res[o["line"] - 1] = o["res"]
     return res, rc, err
+
+
+# ----------------------------------------------------------------------------- extracted model driver
+
+def build_model_driver():
+    """Extract the wrapper models from the compiled Coq development and build ocaml/wrapper_driver.ml."""
+    odir = os.path.join(vlib.CACHE, "ocaml")
+    os.makedirs(odir, exist_ok=True)
+    exe = os.path.join(odir, "wrapper_driver")
+    srcs = [os.path.join(vlib.COQ, "Wrapper", f) for f in ("SelOut.v", "Route.v", "Lines.v", "Extract.v")] + [os.path.join(vlib.VERIF, "ocaml", "wrapper_driver.ml")]
+    with vlib.flock("ocaml-wrapper"):
+        if os.path.exists(exe) and os.path.getmtime(exe) >= max(os.path.getmtime(s) for s in srcs):
+            return exe
+        res = vlib.coq_make(["Wrapper/SelOut.vo", "Wrapper/Route.vo", "Wrapper/Lines.vo"], timeout=600)
+        for t, (ok, log) in res.items():
+            if not ok:
+                raise vlib.BuildError("model does not compile: " + t + "\n" + log[-2000:])
+        rc, out = vlib.sh(["coqc", "-Q", vlib.COQ, "IPV", "-w", "-all", os.path.join(vlib.COQ, "Wrapper", "Extract.v")], cwd=odir, timeout=300)[0:2]
+        if rc != 0:
+            raise vlib.BuildError("extraction failed: " + out)
+        import shutil
+        shutil.copy(os.path.join(vlib.VERIF, "ocaml", "wrapper_driver.ml"), odir)
+        rc, out, err = vlib.sh(["ocamlfind", "ocamlopt", "-w", "-a", "wrapper_model.mli", "wrapper_model.ml", "wrapper_driver.ml", "-o", "wrapper_driver.tmp"], cwd=odir, timeout=300)
+        if rc != 0:
+            raise vlib.BuildError("ocaml build failed: " + out + err)
+        os.replace(os.path.join(odir, "wrapper_driver.tmp"), exe)
+    return exe
+
+
+def hexs(s):
+    return s.encode("latin-1", "replace").hex()
+
+
+def cell_code(c):
+    """JSON cell (harness) -> model cell code"""
+    import struct
+    if c is None:
+        return "e"
+    if "l" in c:
+        return "l%d" % c["l"]
+    if "d" in c:
+        x = float.fromhex(c["d"]) if c["d"] not in ("nan", "-nan", "inf", "-inf") else float(c["d"].replace("-nan", "nan"))
+        return "d%d" % struct.unpack("<Q", struct.pack("<d", x))[0]
+    if "s" in c:
+        return "s" + hexs(c["s"])
+    if "e" in c:
+        return "x%d" % c["e"]
+    raise ValueError(c)
+
+
+class Chunks:
+    """chunk table: text <-> positive id; -1 = "Stopping.\\n"; add_nl c = -c-2"""
+    def __init__(self):
+        self.ids = {}
+        self.texts = [None]
+    def id(self, text):
+        if text not in self.ids:
+            self.ids[text] = len(self.texts)
+            self.texts.append(text)
+        return self.ids[text]
+    def text(self, i):
+        if i == -1:
+            return "Stopping.\n"
+        if i < -1:
+            return self.texts[-i - 2] + "\n"
+        return self.texts[i]
+    def join(self, ids):
+        return "".join(self.text(i) for i in ids)
+
+
+def route_script(sw, self_on, selstr_on, events, uns, ch):
+    """model input lines for one run: switches, events; returns list of lines"""
+    L = ["SW\t" + "\t".join(str(int(bool(sw[k]))) for k in ("OutputFileOn", "OutputStringOn", "LogFileOn", "LogStringOn", "ErrorFileOn", "ErrorStringOn", "ErrorOn", "WarningStringOn"))]
+    for n, b in self_on.items():
+        L.append("SELF\t%d\t%d" % (n, int(b)))
+    for n, b in selstr_on.items():
+        L.append("SELS\t%d\t%d" % (n, int(b)))
+    for e in events:
+        k = e["k"]
+        if k == "out":
+            L.append("out\t%d\t%d" % (e["on"], ch.id(e["s"])))
+        elif k == "log":
+            L.append("log\t%d\t%d" % (e["on"], ch.id(e["s"])))
+        elif k == "err":
+            L.append("err\t%d\t%d\t%d\t%d" % (ch.id(e["s"]), e["stop"], e["oon"], e["lon"]))
+        elif k == "warn":
+            L.append("warn\t%d\t%d\t%d" % (ch.id(e["s"]), e["oon"], e["lon"]))
+        elif k == "pmsg":
+            L.append("pmsg\t%d\t%d\t%d\t%d" % (e["n"], e["on"], e["f"], ch.id(e["s"])))
+        elif k == "pval":
+            L.append("pval\t%d\t%d\t%d\t%s\t%s\t%d" % (e["n"], e["on"], e["f"], hexs(e["name"]), cell_code(e["v"]), ch.id(e["text"])))
+        elif k == "endrow":
+            L.append("endrow\t%d" % e["n"] + "".join("\t" + hexs(h) for h in e["pending"]))
+        elif k == "newtable":
+            L.append("newtable\t%d" % e["n"])
+        elif k == "popen":
+            L.append("popen\t%d\t%d" % (e["n"], e["fon"]))
+    L.append("RUN" + "".join("\t%d" % n for n in uns))
+    return L
+
+
+def parse_route_output(lines, ch):
+    """-> dict sink -> text, 'sel_s'/'sel_f' -> {n: text}, 'table' -> {n: (R, C, [cells])}"""
+    r = {"sel_s": {}, "sel_f": {}, "table": {}}
+    for ln in lines:
+        if ln == "END":
+            break
+        f = ln.split("\t")
+        head = f[0].split(" ")
+        if head[0] in ("out_s", "out_f", "log_s", "log_f", "err_s", "err_f", "warn_s"):
+            r[head[0]] = ch.join(int(x) for x in head[1:])
+        elif head[0] in ("sel_s", "sel_f"):
+            r[head[0]][int(head[1])] = ch.join(int(x) for x in head[2:])
+        elif head[0] == "table":
+            r["table"][int(head[1])] = (int(head[3]), int(head[4]), f[1:])
+    return r
+
+
+def table_codes(tab):
+    """harness table (list of rows of JSON cells) -> (R, C, [codes])"""
+    R = len(tab)
+    C = len(tab[0]) if tab else 0
+    return (R, C, [cell_code(c) for row in tab for c in row])
